@@ -6,18 +6,20 @@
 set -u
 wt=$1; out=$2; filter=$3; shift 3
 cd "$wt" || exit 2
-git checkout -q -- . ; git clean -fdq -e target
+git reset -q --hard HEAD; git clean -fdq -e target
 git apply --check "$out/patch.diff" && echo "patch applies: yes" || { echo "patch applies: NO"; exit 1; }
 git apply "$out/patch.diff"
+if [ -z "${SKIP_SUITE:-}" ]; then
 echo "== existing suite with the patch"
 cargo test --workspace --no-fail-fast --offline 2>&1 | grep -E "^test result|FAILED|failed|panicked" | sort | uniq -c | head -30
 echo "== re-run of wall-clock sensitive tests serially (with the patch)"
 cargo test --offline -p nexosim --test integration -- --test-threads 1 system_clock clock_sync timeout 2>&1 | grep -E "^test result|FAILED" | head
+fi
 if [ -s "$out/demo.diff" ]; then git apply "$out/demo.diff" || echo "demo.diff does not apply"; fi
 echo "== demo with the patch (expected to fail)"
 cargo test --offline -p nexosim "$@" "$filter" 2>&1 | grep -E "^test |^test result|panicked" | head -20
 git apply -R "$out/patch.diff" || { echo "cannot revert patch"; exit 1; }
 echo "== demo without the patch (expected to pass)"
 cargo test --offline -p nexosim "$@" "$filter" 2>&1 | grep -E "^test |^test result|panicked" | head -20
-git checkout -q -- . ; git clean -fdq -e target
+git reset -q --hard HEAD; git clean -fdq -e target
 echo done
